@@ -62,6 +62,7 @@ def run(rep, tier, seed):
     if t.violations or not t.ok:
         rep.fail("C10/model", "TLC reported a violation on MechDoc: " + "; ".join(t.errors[:3]), {"log": t.log})
     cases = t.cases
+    cases.sort(key=lambda c: json.dumps(c['doc'], sort_keys=True))
     if len(cases) > 60000: cases = rnd.sample(cases, 60000)
     log(f"[C10] TLC: {t.generated} states, {len(cases)} documents in {t.wall:.1f}s")
     names = ["a", "b"]
